@@ -45,13 +45,32 @@ def apply_edits(root, edits):
     return None
 
 
+def seeded_variants():
+    """independently produced breaking changes stored under /verif/seeded/<id>/ (patch.diff + meta.json)"""
+    out = []
+    root = os.path.join(VERIF, "seeded")
+    if not os.path.isdir(root):
+        return out
+    for d in sorted(os.listdir(root)):
+        mp = os.path.join(root, d, "meta.json")
+        pp = os.path.join(root, d, "patch.diff")
+        if os.path.exists(mp) and os.path.exists(pp):
+            m = json.load(open(mp))
+            out.append(dict(id="seeded-" + d, props=[m["property"]], rule=None, expect="fire", edits=[], patch=pp, note="independent sub-agent change"))
+    return out
+
+
 def run_variant(v):
     src = os.environ.get("FORMULAE_SRC", "/repo")
     tmp = tempfile.mkdtemp(prefix="formulae_variant_")
     try:
         shutil.copytree(os.path.join(src, "formulae"), os.path.join(tmp, "formulae"),
                         ignore=shutil.ignore_patterns("__pycache__"))
-        err = apply_edits(tmp, v["edits"])
+        if v.get("patch"):
+            r = subprocess.run(["patch", "-p1", "-s", "-d", tmp, "-i", v["patch"]], capture_output=True, text=True)
+            err = None if r.returncode == 0 else f"patch does not apply: {(r.stdout + r.stderr)[:200]}"
+        else:
+            err = apply_edits(tmp, v["edits"])
         if err:
             return dict(id=v["id"], status="skipped", detail=err)
         env = dict(os.environ, FORMULAE_SRC=tmp, VERIF_EVIDENCE_DIR=os.path.join(tmp, "ev"))
@@ -64,9 +83,9 @@ def run_variant(v):
         detail = []
         for prop, code, out in res:
             if v["expect"] == "fire":
-                fired = code == 1 and any(
+                fired = code == 1 and (v["rule"] is None or any(
                     (("  " + v["rule"] + "  ") in line) for line in out.splitlines()
-                )
+                ))
                 if not fired:
                     ok = False
                     detail.append(f"{prop}: exit {code}, rule {v['rule']} not reported; tail: {out.strip().splitlines()[-3:]}")
@@ -82,7 +101,7 @@ def run_variant(v):
 
 
 def run_all(prop=None, jobs=16, only=None, quiet=False):
-    vs = [v for v in VARIANTS if (prop is None or prop in v["props"]) and (only is None or only in v["id"])]
+    vs = [v for v in VARIANTS + seeded_variants() if (prop is None or prop in v["props"]) and (only is None or only in v["id"])]
     with cf.ThreadPoolExecutor(max_workers=jobs) as ex:
         results = list(ex.map(run_variant, vs))
     bad = [r for r in results if r["status"] == "FAILED"]
